@@ -23,7 +23,7 @@ def warm_queries(cases, paths, rng):
         cases.q("avail", p)
     cases.q("cycles")
     for p in ps:
-        if p.endswith("conftest.py") or p.endswith("fx.py") or p.endswith("mod_a.py") or p.endswith("mod_b.py"):
+        if p.endswith(("conftest.py", "fx.py", "mod_a.py", "mod_b.py", "fixtures.py", "__init__.py")):
             cases.q("imported", p)
     for p in ps[:3]:
         cases.q("resolve", p, "foo"); cases.q("resolve", p, "qux")
@@ -34,7 +34,7 @@ def final_battery(cases, paths, reverse=False):
     a memo must not depend on which file was asked about first"""
     for p in sorted(paths, reverse=reverse):
         cases.q("avail", p)
-        for n in ("foo", "bar", "baz", "qux", "quux", "fa", "fb", "fc"):
+        for n in ("foo", "bar", "baz", "qux", "quux", "fa", "fb", "fc", "fmod", "fpkg"):
             cases.q("resolve", p, n)
         cases.q("imported", p)
         cases.q("mismatch", p)
@@ -62,6 +62,14 @@ def run(tier, seed):
             for d in (a, b, c):
                 docs[d.path] = d
             docs["a/conftest.py"].blocks.insert(0, {"k": "raw", "text": "from .mod_b import *"})
+        # a module and a package of the same name side by side (`a/fixtures.py` and `a/fixtures/__init__.py`), star-imported
+        # by the conftest: which of the two an import means must not depend on which of them happens to be cached
+        if rng.random() < 0.3 and "a/conftest.py" in docs:
+            m = histgen.Doc("a/fixtures.py"); pk = histgen.Doc("a/fixtures/__init__.py")
+            m.blocks += [histgen.fixture_block(rng, "fmod")]
+            pk.blocks += [histgen.fixture_block(rng, "fpkg")]
+            docs[m.path] = m; docs[pk.path] = pk
+            docs["a/conftest.py"].blocks.insert(0, {"k": "raw", "text": "from .fixtures import *"})
         paths = list(docs.keys())
         order = list(paths); rng.shuffle(order)
         script = []     # ('analyze', p, text) | ('close', p) | ('open', p)
